@@ -120,6 +120,14 @@ func TestC10Handshake(t *testing.T) {
 			}
 		}
 	}
+	// in every run: a stale SYN carrying the very window the new client
+	// proposes lets the packet behind it through to the data phase (a FIN
+	// ends the connection visibly; a DATA packet with sequence number 0 is
+	// the open finding recorded for C10)
+	for _, b := range []string{"fin", "data", "ack", "synack"} {
+		run(20, clean, []string{"synN", b}, nil, [2]time.Duration{})
+		run(20, clean, nil, []string{"synN", b}, [2]time.Duration{})
+	}
 	// client windows and start orders
 	for _, n := range ns {
 		run(n, clean, nil, nil, [2]time.Duration{})
